@@ -1,5 +1,13 @@
 """C10 cases: parsing (from_str_radix, FromStr, parse_bytes, from_radix_be/le)."""
 from .common import *
+from . import prim as _prim
+
+# the trusted leaf layer (Lean Prim.*) is validated against rustc's primitives in the same run
+HARNESS_BINS = ["c10", "prim"]
+
+
+def ROUTE(line):
+    return _prim.route(line, "c10")
 
 DIG = "0123456789abcdefghijklmnopqrstuvwxyz"
 
@@ -89,7 +97,7 @@ def digits_case(rng, w, n, r):
     return "random", [rng.randrange(r) for _ in range(rng.choice([1, 2, 3, W // 8, W // 4, W]))]
 
 
-def gen(rng, tier):
+def _gen_main(rng, tier):
     reps = 12 if tier == "thorough" else 3
     cf = cfgs(tier)
     for cfg in cf:
@@ -125,3 +133,8 @@ def gen(rng, tier):
                 yield f"from_str_radix {s}{cfg} {r} 31", "bad-radix"
                 yield f"from_radix_be {s}{cfg} {r} 01", "bad-radix"
                 yield f"from_radix_le {s}{cfg} {r} 01", "bad-radix"
+
+
+def gen(rng, tier):
+    yield from _gen_main(rng, tier)
+    yield from _prim.utf8(rng, tier)
